@@ -20,6 +20,7 @@ import sys
 from pathlib import Path
 from typing import Any
 
+from vp.core import reraise_harness_fault as core_reraise
 from vp.core import Check, Failure, Infra, drive, enc, load_corpus
 
 META = dict(
@@ -192,6 +193,7 @@ def oracle_line(case: dict) -> Failure | None:
     try:
         node = pc.parse_one_line(case["line"])
     except Exception as e:
+        core_reraise(e)
         return Failure(f"parse-raises:{type(e).__name__}", case, f"{case['line']!r}: {type(e).__name__}: {e}")
     want = {"indent": case["indent"], "indent_error": case["indent"] % 4 != 0, "threshold": case["thr"] or "",
             "name": case["name"], "argument": case["arg"] or "", "has_argument": case["arg"] is not None,
@@ -219,6 +221,7 @@ def oracle_cond(case: dict) -> Failure | None:
     try:
         PcodeParser._parse_tag_operator_value(node)
     except Exception as e:
+        core_reraise(e)
         return Failure(f"parse-raises:{type(e).__name__}", case, f"{case['part']!r}: {type(e).__name__}: {e}")
     return cond_failure(case, node.tag_operator_value, case["cond"])
 
